@@ -41,6 +41,8 @@ ArithPrograms ==
   \cup {[funcs |-> NoFuncs, glyph |-> <<I("P0", 1), I("PUSH", 1), I("PUSH", a), I("P2", mv), I("PUSH", 1), I("A1", 70), I("POP", 0)>>] : a \in Extremes, mv \in {72, 56}}
   \* write / read the control value table with extreme values (pixels and font units), move a point to it
   \cup {[funcs |-> NoFuncs, glyph |-> <<I("PUSH", 1), I("PUSH", a), I("P2", w), I("PUSH", 1), I("A1", 69), I("POP", 0), I("PUSH", 2), I("PUSH", 1), I("P2", 63)>>] : a \in Extremes, w \in {68, 112}}
+  \* instructions that push a measured value: MPPEM, MPS (their operand is the instance's size: replayed at a huge one too)
+  \cup {[funcs |-> NoFuncs, glyph |-> <<I("G0", o), I("POP", 0)>>] : o \in {75, 76}}
 \* every point / CVT / state instruction with a (mostly valid) first operand and an extreme second one
 Firsts == {0, 1, 3, 6, 7, -1, MaxI, MinI}
 Pop2Ops == {72, 56, 58, 59, 62, 63, 224, 228, 255, 68, 112, 66, 39, 6, 8, 134, 10, 11, 142, 129}
